@@ -3,13 +3,15 @@ the analysed code calls.  Each model returns the abstract result (and performs w
 NotImplemented means 'no model' (the interpreter then executes the local body or yields TOP and counts it)."""
 import re
 from absint import I, TOP, join, top_of, INT_TYPES, BITS, show_val, widen
+from absint_simd import Simd
 
 
-class Models:
+class Models(Simd):
     def __init__(self):
         self.table = []
         self.simd_obl = True
         R = self.reg
+        self.register_simd()
         R(r"^core::num::<impl (u|i)(8|16|32|64|128|size)>::wrapping_(add|sub|mul|neg|shl|shr)$", self.m_wrapping)
         R(r"^core::num::<impl (u|i)(8|16|32|64|128|size)>::(to_le_bytes|to_be_bytes|to_ne_bytes)$", self.m_to_bytes)
         R(r"^core::num::<impl (u|i)(8|16|32|64|128|size)>::(from_le_bytes|from_be_bytes)$", self.m_from_bytes)
@@ -77,6 +79,7 @@ class Models:
         R(r"as core::iter::Iterator>::collect::<.*Vec<", self.m_collect_vec)
         R(r"alloc::vec::Vec<.*> as core::ops::Index(Mut)?<usize>>::index(_mut)?$", self.m_index_range)
         R(r"as core::iter::Iterator>::fold::<", self.m_fold)
+        R(r"as core::iter::Iterator>::(find|position|rposition|find_map|last|max|min|nth)(::<.*>)?$", self.m_find)
         R(r"as core::iter::Iterator>::size_hint$|as core::iter::ExactSizeIterator>::len$", self.m_size_hint)
         # panics
         R(r"core::panicking::", self.m_panic)
@@ -567,6 +570,48 @@ class Models:
             return self.exact_size(it[2]) and self.exact_size(it[3])
         return False
 
+    def m_find(self, ip, fv, st, depth, t, n, a, dty):
+        """find / last / max / min / nth: None or some element the iterator can yield; position: None or an index below its length"""
+        it = a[0]
+        for _ in range(3):
+            if it[0] in ("ref", "cref"):
+                it = ip.deref_val(st, it)
+        it = self.as_it(ip, st, it)
+        if it[0] != "it":
+            return NotImplemented
+        op = re.search(r">::(find|position|rposition|find_map|last|max|min|nth)", n).group(1)
+        lo, hi = self.iter_len(ip, st, it)
+        if op in ("position", "rposition"):
+            return ("en", ((0, ()), (1, (I(0, max(hi - 1, 0)),)))) if hi > 0 else ("en", ((0, ()),))
+        if op == "find_map":
+            return NotImplemented
+        # any element: summarise by stepping a widened copy of the iterator
+        elem = None
+        cur = it
+        for k in range(6):
+            item, new = self.step(ip, st, cur)
+            if item[0] != "en":
+                return NotImplemented
+            somes = [fs for v, fs in item[1] if v == 1]
+            if not somes:
+                break
+            elem = somes[0][0] if elem is None else join(elem, somes[0][0])
+            nxt = new if new is not None else cur
+            if k >= 2:
+                nxt = widen(cur, join(cur, nxt))
+            if nxt == cur:
+                break
+            cur = nxt
+        if cur[0] == "it" and cur[1] in ("range", "rev"):
+            # a (reversed) range: every value between the bounds
+            r = cur if cur[1] == "range" else cur[2]
+            r0 = it if it[1] == "range" else it[2]
+            if r0[0] == "it" and r0[1] == "range":
+                elem = I(r0[2][1], max(r0[3][2] - 1, r0[2][1]))
+        if elem is None:
+            return ("en", ((0, ()),))
+        return ("en", ((0, ()), (1, (elem,))))
+
     def m_fold(self, ip, fv, st, depth, t, n, a, dty):
         it = self.as_it(ip, st, a[0])
         if it[0] != "it":
@@ -753,6 +798,22 @@ class Models:
         # identity conversions (T -> T, [u8;N] -> [u8;N])
         if (t.get("arg_tys") or [""])[0] == dty:
             return a[0]
+        # `x.into()` through the blanket impl: the local `impl From<Src> for Dst`
+        if n.endswith("::into"):
+            from absint import norm_ty
+            src, dst = norm_ty((t.get("arg_tys") or [""])[0]), norm_ty(dty)
+            cache = ip.__dict__.setdefault("_from_cache", {})
+            if (src, dst) not in cache:
+                hit = None
+                for g in ip.F.fns.values():
+                    if "mir" in g and g.get("name") == "from" and norm_ty(g.get("self_ty") or "") == dst and (g.get("trait") or "").startswith("core::convert::From<") \
+                            and norm_ty((g.get("trait") or "")[len("core::convert::From<"):-1]) == src:
+                        hit = g
+                        break
+                cache[(src, dst)] = hit
+            g = cache[(src, dst)]
+            if g is not None:
+                return ip.call_local(g, list(a), st, depth)
         return NotImplemented
 
     def m_try_into(self, ip, fv, st, depth, t, n, a, dty):
